@@ -529,7 +529,9 @@ fn corners(out: &mut Out, rng: &mut R) {
             let kept = r.ends_with(&format!(" {}", ua));
             let detail = || format!("pset.mergex {} 01m {} {} : operands share unique id {} (lock time {}), result {} ; call site Input::merge (src/pset/map/input.rs): cmp::max on required_time/height_locktime", hex(&serialize(&t)), pd::adds_text(&a), pd::adds_text(&b), ua, TH + 20, r.rsplit(' ').next().unwrap_or(""));
             out.s("merge_corner_ids_equal", same_before, || detail());
-            if kept { out.s("merge_keeps_id", true, String::new); } else { out.s_known("merge_keeps_id", "F16locktime", detail); }
+            // the recorded class is exactly: the merge SUCCEEDS and the result carries another id; anything else
+            // (an error, a panic) is not that finding
+            if kept { out.s("merge_keeps_id", true, String::new); } else if r.starts_with("ok") { out.s_known("merge_keeps_id", "F16locktime", detail); } else { out.s("merge_keeps_id", false, detail); }
         }
     }
     // (3) both unique ids fail with the same error: refused with that error (regression: a482e8c; before,
